@@ -1127,6 +1127,66 @@ Proof.
   split; [lia|reflexivity].
 Qed.
 
+(* ----------------------------------------------------------------- the summary line's tokens *)
+
+Lemma in_single_pair (a b c d : N) : In (c, d) [(a, b)] <-> c = a /\ d = b.
+Proof.
+  cbn [In]. split.
+  - intros [H|[]]. injection H; auto.
+  - intros [-> ->]. left; reflexivity.
+Qed.
+
+Lemma in_tok_if_pos tag n t v : In (t, v) (tok_if_pos tag n) <-> t = tag /\ v = n /\ 0 < v.
+Proof.
+  unfold tok_if_pos. destruct (0 <? n) eqn:E.
+  - rewrite in_single_pair. apply N.ltb_lt in E. intuition (subst; auto).
+  - apply N.ltb_ge in E. cbn [In]. intuition (subst; lia).
+Qed.
+
+(* which (tag, number) tokens the summary line shows, for any statistics *)
+Lemma summary_tokens_spec (s : stats) tag v :
+  In (tag, v) (summary_counts s) <->
+  (tag = 0 /\ v = finished_count s)
+  \/ (tag = 1 /\ v = initial_run_count s /\ finished_count s <> initial_run_count s)
+  \/ (tag = 2 /\ v = passed s)
+  \/ (tag = 3 /\ v = passed_slow s /\ 0 < v)
+  \/ (tag = 4 /\ v = flaky s /\ 0 < v)
+  \/ (tag = 5 /\ v = leaky s /\ 0 < v)
+  \/ (tag = 6 /\ v = failed s /\ 0 < v)
+  \/ (tag = 7 /\ v = exec_failed s /\ 0 < v)
+  \/ (tag = 8 /\ v = timed_out s /\ 0 < v)
+  \/ (tag = 9 /\ v = skipped s).
+Proof.
+  unfold summary_counts. rewrite !in_app_iff, !in_tok_if_pos, !in_single_pair.
+  assert (H1 : In (tag, v) (if finished_count s =? initial_run_count s then []
+                            else [(1, initial_run_count s)])
+               <-> tag = 1 /\ v = initial_run_count s /\ finished_count s <> initial_run_count s).
+  { destruct (finished_count s =? initial_run_count s) eqn:E.
+    - apply N.eqb_eq in E. cbn [In]. intuition.
+    - apply N.eqb_neq in E. rewrite in_single_pair. intuition. }
+  rewrite H1. tauto.
+Qed.
+
+(* C17_summary_tokens: every number on the summary line is a tally of the per-test final results
+   of the stream ("F[/I] tests run: P passed (a slow, b flaky, c leaky), X failed, Y exec failed,
+   Z timed out, S skipped"; tags as in Model/Junit.v), and a token is shown exactly when stated *)
+Lemma summary_tokens_are_tallies n evs tag v :
+  let T p := count_if (test_where p) evs in
+  In (tag, v) (summary_counts (run_stats n evs)) <->
+  (tag = 0 /\ v = T (on_res r_any))
+  \/ (tag = 1 /\ v = n /\ T (on_res r_any) <> n)
+  \/ (tag = 2 /\ v = T (on_res jis_success))
+  \/ (tag = 3 /\ v = T (fun a => jis_success (ja_res a) && ja_slow a) /\ 0 < v)
+  \/ (tag = 4 /\ v = count_if (fun e => test_where (on_res jis_success) e && retried e) evs /\ 0 < v)
+  \/ (tag = 5 /\ v = T (on_res r_leak) /\ 0 < v)
+  \/ (tag = 6 /\ v = T (on_res r_fail) /\ 0 < v)
+  \/ (tag = 7 /\ v = T (on_res r_exec) /\ 0 < v)
+  \/ (tag = 8 /\ v = T (on_res r_timeout) /\ 0 < v)
+  \/ (tag = 9 /\ v = count_if is_skipped_event evs).
+Proof.
+  cbv zeta. rewrite run_stats_is_tally. exact (summary_tokens_spec (tally_stats n evs) tag v).
+Qed.
+
 (* every snapshot an event carries is the tally of the stream up to and including that event,
    given the decidable predicate [attached] (validated on every real tap; proved of the
    dispatcher model for all histories in Proofs/JunitLink.v) *)
